@@ -179,7 +179,7 @@ def cases(draw, max_n=6):
 
 class Relations(Facet):
     name = "relations"
-    examples = {"quick": 2400, "thorough": 120000}
+    examples = {"quick": 2400, "thorough": 72000}
     shards = {"quick": 16, "thorough": 16}
 
     def strategy(self, tier):
